@@ -1,6 +1,7 @@
 import SpoxModel.Props.C11
 /-! `#print axioms` for every property theorem of C11; parsed by ./check. -/
 #print axioms C11.emit_slots
+#print axioms C11.emit_slots_exact
 #print axioms C11.emit_slots_index
 #print axioms C11.emit_slots_present
 #print axioms C11.slot_position
